@@ -38,6 +38,67 @@ Proof.
   - unfold sc_comb_self. rewrite sc_comb_n, IH, app_length. lia.
 Qed.
 
+(* max / min involve no arithmetic: in every instance the result is one of the data (or the sentinel) *)
+Lemma fmax_cases (a b : F) : fmax a b = a \/ fmax a b = b.
+Proof. unfold fmax. destruct (fltb a b); [right | left]; reflexivity. Qed.
+Lemma fmin_cases (a b : F) : fmin a b = a \/ fmin a b = b.
+Proof. unfold fmin. destruct (fltb b a); [right | left]; reflexivity. Qed.
+
+Lemma sc_comb_max_cases (a b : sc) : sc_max (sc_comb a b) = sc_max a \/ sc_max (sc_comb a b) = sc_max b.
+Proof.
+  destruct a as [n1 mu1 m21 mx1 mn1], b as [n2 mu2 m22 mx2 mn2].
+  unfold sc_comb, sc_of5, sc_mergeStats. cbn [sc_n sc_mu sc_m2 sc_max sc_min].
+  destruct (Z.eqb_spec n1 0) as [E1|E1]; [right; reflexivity|].
+  destruct (Z.eqb_spec n2 0) as [E2|E2]; cbn [negb]; [left; reflexivity|].
+  cbn [sc_max]. apply fmax_cases.
+Qed.
+Lemma sc_comb_min_cases (a b : sc) : sc_min (sc_comb a b) = sc_min a \/ sc_min (sc_comb a b) = sc_min b.
+Proof.
+  destruct a as [n1 mu1 m21 mx1 mn1], b as [n2 mu2 m22 mx2 mn2].
+  unfold sc_comb, sc_of5, sc_mergeStats. cbn [sc_n sc_mu sc_m2 sc_max sc_min].
+  destruct (Z.eqb_spec n1 0) as [E1|E1]; [right; reflexivity|].
+  destruct (Z.eqb_spec n2 0) as [E2|E2]; cbn [negb]; [left; reflexivity|].
+  cbn [sc_min]. apply fmin_cases.
+Qed.
+
+Lemma fold_add_max_in xs : forall (s : sc) l, In (sc_max s) l -> In (sc_max (fold_left sc_add xs s)) (l ++ xs).
+Proof.
+  induction xs as [|x xs IH]; intros s l H; cbn [fold_left].
+  - rewrite app_nil_r. exact H.
+  - replace (l ++ x :: xs) with ((l ++ [x]) ++ xs) by (rewrite <- app_assoc; reflexivity).
+    apply IH. destruct s as [n mu m2 mx mn]. cbn [sc_max] in *. unfold sc_add, sc_of5, sc_merge. cbn [sc_max sc_n sc_mu sc_m2 sc_min].
+    apply in_or_app. destruct (fmax_cases mx x) as [->| ->]; [left; exact H | right; left; reflexivity].
+Qed.
+Lemma fold_add_min_in xs : forall (s : sc) l, In (sc_min s) l -> In (sc_min (fold_left sc_add xs s)) (l ++ xs).
+Proof.
+  induction xs as [|x xs IH]; intros s l H; cbn [fold_left].
+  - rewrite app_nil_r. exact H.
+  - replace (l ++ x :: xs) with ((l ++ [x]) ++ xs) by (rewrite <- app_assoc; reflexivity).
+    apply IH. destruct s as [n mu m2 mx mn]. cbn [sc_min] in *. unfold sc_add, sc_of5, sc_merge. cbn [sc_max sc_n sc_mu sc_m2 sc_min].
+    apply in_or_app. destruct (fmin_cases mn x) as [->| ->]; [left; exact H | right; left; reflexivity].
+Qed.
+
+Lemma tree_max_min_in_data ninf pinf t :
+  In (st_max (tree_stats ninf pinf t)) (ninf :: tdata t) /\ In (st_min (tree_stats ninf pinf t)) (pinf :: tdata t).
+Proof.
+  unfold st_max, st_min. induction t as [xs | l [IHl1 IHl2] r [IHr1 IHr2] | t [IH1 IH2]]; cbn [tree_stats tdata].
+  - unfold sc_of_list. split.
+    + apply (fold_add_max_in xs _ [ninf]). left. reflexivity.
+    + apply (fold_add_min_in xs _ [pinf]). left. reflexivity.
+  - split.
+    + destruct (sc_comb_max_cases (tree_stats ninf pinf l) (tree_stats ninf pinf r)) as [->| ->].
+      * destruct IHl1 as [E|I]; [left; exact E | right; apply in_or_app; left; exact I].
+      * destruct IHr1 as [E|I]; [left; exact E | right; apply in_or_app; right; exact I].
+    + destruct (sc_comb_min_cases (tree_stats ninf pinf l) (tree_stats ninf pinf r)) as [->| ->].
+      * destruct IHl2 as [E|I]; [left; exact E | right; apply in_or_app; left; exact I].
+      * destruct IHr2 as [E|I]; [left; exact E | right; apply in_or_app; right; exact I].
+  - unfold sc_comb_self. split.
+    + destruct (sc_comb_max_cases (tree_stats ninf pinf t) (tree_stats ninf pinf t)) as [->| ->];
+        (destruct IH1 as [E|I]; [left; exact E | right; apply in_or_app; left; exact I]).
+    + destruct (sc_comb_min_cases (tree_stats ninf pinf t) (tree_stats ninf pinf t)) as [->| ->];
+        (destruct IH2 as [E|I]; [left; exact E | right; apply in_or_app; left; exact I]).
+Qed.
+
 Lemma sc_comb_empty_l ninf pinf (o : sc) : sc_comb (sc_empty ninf pinf) o = o.
 Proof. destruct o. reflexivity. Qed.
 
